@@ -93,6 +93,11 @@ def setup_world(ctx, case):
     pair = case["pair"]
     if pair == "gen":
         ref_sp = hg.gen_species(rng, "A", 3, 7, rmax=2)
+        S.lip = case["setup"] % 5 == 1
+        for _ in range(20):
+            if not S.lip or len(ref_sp["sizes"]) == 2:
+                break
+            ref_sp = hg.gen_species(rng, "A", 3, 7, rmax=2)       # (two residues wanted for the LIP LIP target below)
         nres = len(ref_sp["sizes"])
         collide = case["setup"] % 7 == 3
         if collide:
@@ -105,6 +110,15 @@ def setup_world(ctx, case):
             same = len(tgt_sp["sizes"]) == nres
             if same != (case.get("odd") == "resmismatch"):
                 break
+        if S.lip:
+            # a target whose residues all carry the SAME name (LIP LIP, SOL SOL SOL): they are told apart by their
+            # numbers in the topology only (seed C04-12: residue numbers assigned through the shared topology's grouping,
+            # which merges adjacent equal labels for good)
+            # (identical residues: the loader tells residue KINDS apart by name and size)
+            k3 = 2 + case["setup"] % 2
+            tgt_sp = {"name": tgt_sp["name"], "sizes": [k3] * nres,
+                      "atoms": [(r + 1, "LIP", f"L{j}") for r in range(nres) for j in range(k3)],
+                      "bonds": [(i - 1, i) for i in range(1, k3 * nres)]}
         ritp, titp = os.path.join(d, "ref.itp"), os.path.join(d, "tgt.itp")
         hg.write_itp(ritp, ref_sp)
         hg.write_itp(titp, tgt_sp)
@@ -347,6 +361,8 @@ def mutate(ctx, w, S, rng, i, who):
     stream = w.stream
     kind = rng.choice(["move", "moveto", "rotate", "setpos", "view", "collinear"]
                       + (["resids", "coincident"] if who == "argument" else []))
+    if who == "argument" and getattr(S, "lip", False) and rng.random() < 0.3:
+        kind = "resids"
     if kind == "coincident":
         # a degenerate argument: an anchor's SECOND frame neighbour sits exactly on the anchor (virtual sites, the
         # three decimals of a .gro).  The frame is undefined there (the mapped coordinates of that anchor's atoms
@@ -384,6 +400,7 @@ def mutate(ctx, w, S, rng, i, who):
             kind = "move"
         else:
             cur = rng.choice([rng.randint(0, 9000), 99998, 99999, 5])
+            equal = rng.random() < (0.6 if getattr(S, "lip", False) else 0.3)     # every residue the SAME number (5HD 5TL)
             m = w.meta[i]
             k = 0
             st = "ok"
@@ -400,8 +417,8 @@ def mutate(ctx, w, S, rng, i, who):
                     k += 1
                 if st != "ok":
                     break
-                cur += rng.choice([1, 2, 4, 17, -3])
-            ctx.count(f"mutate:{who}:resids-through-views:{st}")
+                cur += 0 if equal else rng.choice([1, 2, 4, 17, -3])
+            ctx.count(f"mutate:{who}:resids-through-views:{'equal:' if equal else ''}{st}")
             return st
     if kind == "collinear":
         # a conformation in which one anchor (>= 2 bonds) is EXACTLY collinear with its two lowest-numbered
